@@ -1,8 +1,8 @@
 // C07 correspondence harness: drives the real TCPIP::StreamFollower with real IP/IPv6 + TCP [+ RawPDU] packets.
-//   case attach=<0|1> maxc=<n> maxb=<n> ka=<microseconds> acl=<0|1> ooo=<0|1> [ack=<0..3>] [usesack=<0|1>] [ign=<0..3>] [maxs=<n>]
+//   case attach=<0|1> maxc=<n> maxb=<n> ka=<microseconds> acl=<0|1> ooo=<0|1> [ack=<0..3>] [usesack=<0|1>] [ign=<0..3>] [maxs=<n>] [nocb=1]
 //        ack: Flow::enable_ack_tracking in the new-stream callback (bit 0 client flow, bit 1 server flow);
 //        usesack: AckTracker::use_sack on both flows' trackers there; ign: ignore_client_data (bit 0) / ignore_server_data
-//        (bit 1) there; maxs: what the check read for DEFAULT_MAX_SACKED_INTERVALS (answered with the compiled value)
+//        (bit 1) there; nocb: no new-stream callback is installed at all (callback_not_set path); maxs: what the check read for DEFAULT_MAX_SACKED_INTERVALS (answered with the compiled value)
 //   decl <v4|v6> <src> <sport> <dst> <dport> <isn> <hex>          (oracle only: the byte stream src->dst)
 //   pkt <ts> <v4|v6> <src> <sport> <dst> <dport> <flags> <seq> <ack> <none|-|hex> [mss=<n>] [sack] [sk=<-|edge,edge,..>] [skraw=<hex>]
 //        sk: a SACK option built with TCP::sack (decimal 32-bit edges; `-` = no edges); skraw: a SACK option with arbitrary data
@@ -154,7 +154,7 @@ static std::unique_ptr<StreamFollower> make_follower(const std::vector<std::stri
     f->max_buffered_chunks_ = size_t(std::stoull(kv(w, "maxc", "512")));
     f->max_buffered_bytes_ = uint32_t(std::stoull(kv(w, "maxb", "3145728")));
     f->stream_keep_alive(std::chrono::microseconds(std::stoll(kv(w, "ka", "300000000"))));
-    f->new_stream_callback([](Stream& s) {
+    if (kv(w, "nocb", "0") != "1") f->new_stream_callback([](Stream& s) {
         std::ostringstream o; o << "new " << sid(s) << " partial=" << s.is_partial_stream();
         events.push_back(o.str());
         install(s);
@@ -232,6 +232,8 @@ int main() {
             events.clear();
             try {
                 fol->process_packet(pkt);
+            } catch (const callback_not_set&) {
+                events.push_back("exc callback_not_set");
             } catch (const std::exception& e) {
                 events.push_back("exc " + exc_name(e));
             }
